@@ -22,7 +22,7 @@ def add(pid, level, build, steps, technique, text, note, design_ref, replay_bin=
     }
 
 
-add("C01", "fault_enumeration", ["dbh"], dbh("c01"),
+add("C01", "fault_enumeration", ["dbh"], dbh("c01", ["--n", "600"], ["--n", "6000"]),
     "crash-point enumeration over hooked file-system calls + recovery oracle",
     "Every prefix of the mutating file-system calls (hooked in FileStorage/WriteAheadLog) of generated storage programs is "
     "materialised as a pair of files and reopened with the real recovery code; the recovered content must equal the content "
@@ -31,7 +31,7 @@ add("C01", "fault_enumeration", ["dbh"], dbh("c01"),
     "crash granularity is one system call (byte tears of log appends in the thorough tier); no OS write reordering.",
     "DESIGN.md §6 C01, §5.5")
 
-add("C04", "exploration", ["dbh"], dbh("c04"),
+add("C04", "exploration", ["dbh"], dbh("c04", ["--n", "6000"], ["--n", "60000", "--len", "200"]),
     "reference-model monitor (byte map) over random storage histories on three back-ends",
     "Random histories of storage-layer operations on the three back-ends, each step compared with a byte-map model: every live value "
     "equal, removed values unreadable, fresh indexes not in use, packed length after optimize, everything preserved by reopen.",
@@ -48,22 +48,57 @@ for pid, what in [
     ("C10", "alias <-> node bijection observed both ways (select aliases, select aliases ids, resolving every alias string ever used), rejection of empty aliases and edge aliases without effect"),
     ("C11", "index listing counts and index search contents for every (indexed key, value in the domain) pair, back-fill on creation, duplicate creation rejected"),
 ]:
-    add(pid, "exploration", ["dbh"], dbh("hist_" + pid.lower()),
+    add(pid, "exploration", ["dbh"], dbh("hist_" + pid.lower(), ["--n", "2400"], ["--n", "30000", "--len", "160"]),
         "reference-model monitor over generated query histories + full canonical dump comparison after every query",
         "Seeded hostile histories on all six database variants; every mutating query is predicted by the reference model and the full "
         "canonical dump is compared after every query. This check owns the monitor classes for: " + what + ".",
         HIST_NOTE, "DESIGN.md §6 " + pid + ", §5.1-5.3")
 
-add("C13", "exploration", ["dbh"], dbh("c13"),
+add("C13", "exploration", ["dbh"], dbh("c13", ["--n", "2400"], ["--n", "30000", "--rounds", "30"]),
     "before/after canonical-dump comparison around rolled-back transactions and failing queries",
     "Histories alternating committed queries with mutable transactions of 1-8 generated queries that are rolled back (closure error or "
     "failing query) and single queries failing after partial work; the order-insensitive dump after must equal the dump before.",
     HIST_NOTE, "DESIGN.md §6 C13")
 
-add("C19", "exploration", ["dbh"], dbh("c19"),
+add("C19", "exploration", ["dbh"], dbh("c19", ["--n", "800"], ["--n", "8000", "--rounds", "60"]),
     "logical step-budget monitor (storage-call counter in a StorageData wrapper) over tombstone-saturating histories",
     "Insert/remove cycles over many distinct hashed keys (aliases, indexed values, property keys, index keys), rolled-back transactions "
     "and generic hostile histories on DbImpl<MonStorage<..>>: no query may exceed 3,000,000 storage calls (observed maximum is reported; "
     "it is three orders of magnitude below). Wall-clock is not part of the verdict.",
     "A loop that makes no storage call would not be seen by the counter (the per-case wall-clock watchdog reports that as inconclusive).",
     "DESIGN.md §6 C19, §5.4")
+
+
+def multi(*engines):
+    def steps(tier):
+        n = "30000" if tier == "thorough" else "2400"
+        return [{"cmd": [DBH, e, "--n", n]} for e in engines]
+    return steps
+
+
+add("C14", "exploration", ["dbh"], dbh("c14", ["--random", "3000"], ["--random", "60000"]),
+    "oracle = the property statement over exhaustive small graphs + random graphs, against an independent traversal reference",
+    "Every multigraph with <= 3 nodes and <= 4 edges by every insertion sequence (7,727 graphs, exhaustive) plus random graphs with removals and "
+    "id reuse; every node and edge as origin, BFS/DFS forward/reverse: origin first, result set = reachable set, no duplicates, BFS distances "
+    "non-decreasing, each node's edges newest first, DFS = recursive pre-order.",
+    "Graphs larger than ~10 nodes / 40 edges are outside the budget.", "DESIGN.md §6 C14")
+add("C15", "exploration", ["dbh"], dbh("c15", ["--n", "3000"], ["--n", "60000"]),
+    "reference condition evaluator (documented truth tables, type-strict comparisons) over random condition trees; any-of over the 4 readings of documented-ambiguous corners",
+    "Random (graph, condition tree, algorithm, origin) triples; the result must equal the reference result under at least one admissible reading of "
+    "the two corners the documentation leaves open. Mismatches are minimised to a single culprit condition for the signature.",
+    "Where the documentation is ambiguous (beyond/not_beyond with or; beyond at the origin) either reading is accepted.", "DESIGN.md §6 C15")
+add("C16", "exploration", ["dbh"], dbh("c16", ["--n", "3000"], ["--n", "50000"]),
+    "relative oracle: slice and stable-sort laws against the implementation's own unsliced / unordered result",
+    "Random searches of every kind with limit/offset in 0..n+3 and 0-3 order keys: never an error or panic, sliced result = the right window of the "
+    "unsliced one, ordered result = stable sort (missing keys last) of the unordered one.",
+    "Order across different value types under one key is not specified and is not judged (permutation and slicing still are).", "DESIGN.md §6 C16")
+add("C17", "exploration", ["dbh"], dbh("c17", ["--random", "3000"], ["--random", "60000"]),
+    "reference Dijkstra over element costs + product-graph witness search",
+    "All small multigraphs x all node pairs (exhaustive) and random graphs with random distance-independent condition sets: the result must be the "
+    "passing projection of a minimum-cost usable path, and empty exactly when no usable path exists / an endpoint is not a node / endpoints are equal.",
+    "Distance conditions are not generated (element cost would depend on position); conditions that stop at the origin are not generated.", "DESIGN.md §6 C17")
+add("C18", "exploration", ["dbh"], multi("hist_c18", "c18s"),
+    "reference-model monitor: elements search order and selection after histories with removals and id reuse",
+    "Histories with removals and id reuse compared with the model after every query (elements search = ids by increasing magnitude, each once, no "
+    "removed element), plus elements searches with condition trees, limits and offsets against the reference evaluator.",
+    "Conditions referring to distance or traversal control are not generated for elements searches.", "DESIGN.md §6 C18")
